@@ -310,24 +310,33 @@ func buildPlan(rng *rand.Rand, nWrite int, maxHops int) *plan {
 		strata[k] = append(strata[k], i)
 	}
 	sort.Strings(keys)
+	// rounds: every stratum gets a turn before any gets a second one; when the
+	// universe is exhausted another round starts (the vector rotation below
+	// makes repeated pairs distinct attacks; exact duplicates are dropped)
 	var order []int
-	for len(order) < nWrite {
-		rng.Shuffle(len(keys), func(i, j int) { keys[i], keys[j] = keys[j], keys[i] })
-		progressed := false
-		for _, k := range keys {
-			if len(strata[k]) == 0 {
-				continue
+	for round := 0; len(order) < nWrite && round < 4; round++ {
+		left := map[string][]int{}
+		for k, v := range strata {
+			left[k] = append([]int{}, v...)
+		}
+		for len(order) < nWrite {
+			rng.Shuffle(len(keys), func(i, j int) { keys[i], keys[j] = keys[j], keys[i] })
+			progressed := false
+			for _, k := range keys {
+				if len(left[k]) == 0 {
+					continue
+				}
+				j := rng.IntN(len(left[k]))
+				order = append(order, left[k][j])
+				left[k] = append(left[k][:j], left[k][j+1:]...)
+				progressed = true
+				if len(order) == nWrite {
+					break
+				}
 			}
-			j := rng.IntN(len(strata[k]))
-			order = append(order, strata[k][j])
-			strata[k] = append(strata[k][:j], strata[k][j+1:]...)
-			progressed = true
-			if len(order) == nWrite {
+			if !progressed {
 				break
 			}
-		}
-		if !progressed {
-			break
 		}
 	}
 	pl := &plan{}
@@ -338,6 +347,7 @@ func buildPlan(rng *rand.Rand, nWrite int, maxHops int) *plan {
 	mvs := append([]string{}, realmVectors...)
 	rng.Shuffle(len(rvs), func(i, j int) { rvs[i], rvs[j] = rvs[j], rvs[i] })
 	rng.Shuffle(len(mvs), func(i, j int) { mvs[i], mvs[j] = mvs[j], mvs[i] })
+	seenKey := map[string]bool{}
 	for _, ci := range order {
 		cd := uni[ci]
 		id++
@@ -353,6 +363,10 @@ func buildPlan(rng *rand.Rand, nWrite int, maxHops int) *plan {
 					break
 				}
 			}
+			if seenKey[a.Key()] {
+				continue
+			}
+			seenKey[a.Key()] = true
 			if a.Finding != "" {
 				pl.findings = append(pl.findings, a)
 			} else {
@@ -368,6 +382,10 @@ func buildPlan(rng *rand.Rand, nWrite int, maxHops int) *plan {
 				break
 			}
 		}
+		if seenKey[a.Key()] {
+			continue
+		}
+		seenKey[a.Key()] = true
 		if a.Static || a.Vector == "init" {
 			pl.packs = append(pl.packs, []*Attack{a})
 		} else {
@@ -741,7 +759,7 @@ func run(c *vf.Ctx) {
 	}
 	c.RequireCounter("attacks_through_helper_library", int64(c.N(25, 400)))
 	c.RequireCounter("victim_callback_attacks_blocked", int64(c.N(10, 150)))
-	c.RequireCounter("references_stored_in_attacker_state", int64(c.N(3, 50)))
+	c.RequireCounter("references_stored_in_attacker_state", int64(c.N(3, 20)))
 	c.RequireCounter("metadata_only_object_changes", 1)
 	for _, v := range runVectors {
 		if _, _, _, f, _ := wrap(v, "vica", "x := 1; _ = x"); f != "" {
